@@ -116,7 +116,7 @@ fn generated_case(ctx: &Ctx, ch: &mut Ch) -> Outcome {
     let mut s = p.s.clone();
     let mut perturbed = false;
     let mut explicit = true;
-    if ch.chance(7, 10) {
+    if ch.chance(7, 10) && prog::perturbation_safe(&p) {
         let n = 1 + ch.pick(2);
         for _ in 0..n {
             if ch.chance(1, 4) {
